@@ -117,6 +117,20 @@ def make_base(w: int = 9) -> Base:
     return Base(w=w)
 
 
+def make_sub1(w: int = 9) -> Sub1:
+    """A callable whose return type is a strict subclass of Base."""
+    return Sub1(w=w)
+
+
+def make_object(w: int = 9) -> object:
+    """A callable whose return type is a strict superclass of every class here."""
+    return Base(w=w)
+
+
+def make_other(q: int = 9) -> Other:
+    return Other(q=q)
+
+
 NOT_A_CLASS = 5
 
 
